@@ -284,6 +284,57 @@ Theorem tools_node_streams_exactly :
 Proof. exact tools_node_stream_exact. Qed.
 Print Assumptions tools_node_streams_exactly.
 
+(* ... including the failing rounds: for tools whose two forms behave alike as they are called
+   ([tools_alike]: a stream of at least one chunk without error item concatenating to the invoked
+   answer, or the same error, or a panic, in both forms - whatever the kind of the tool, with or
+   without an unknown-tools handler) EVERY round is exact: the calls all answer, or the two forms of
+   the node fail alike (the first failing call decides; an unknown tool name stops both) *)
+Theorem tools_node_is_exact_for_tools_behaving_alike :
+  forall kind_of inv str handler pi_of pi_of' sched_of rd rd_nonempty calls,
+    calls <> [] ->
+    Permutation (pi_of calls) (seq 0 (List.length calls)) ->
+    Permutation (pi_of' calls) (seq 0 (List.length calls)) ->
+    tools_alike inv str ->
+    (forall srcs, tails_none srcs -> drained (merge_rest (sched_of srcs) srcs) = true) ->
+    tools_exact (node_tn kind_of inv str handler pi_of) (node_tns kind_of inv str handler pi_of' sched_of)
+                rd rd_nonempty Stream calls.
+Proof.
+  exact (fun kind_of inv str handler pi_of pi_of' sched_of rd rd_nonempty calls Hne P P' Ha Hs =>
+           tools_node_exact_on_consistent_tools kind_of inv str handler pi_of pi_of' sched_of rd rd_nonempty calls Hne P P'
+             (proj2 (Forall_forall _ _) (fun c _ => alike_calls_consistent kind_of inv str handler c Ha)) Hs).
+Qed.
+Print Assumptions tools_node_is_exact_for_tools_behaving_alike.
+
+(* hence, for such tools, Generate and Stream of the whole agent agree for every script, with a
+   checker reading the whole stream - no hypothesis left about the tools node *)
+Theorem generate_stream_agree_for_tools_behaving_alike :
+  forall kind_of inv str handler pi_of pi_of' rd rd_nonempty modifier visible script max_steps input,
+    (forall calls, Permutation (pi_of calls) (seq 0 (List.length calls))) ->
+    (forall calls, Permutation (pi_of' calls) (seq 0 (List.length calls))) ->
+    tools_alike inv str ->
+    Forall chunking_valid script ->
+    agent_run (node_tn kind_of inv str handler pi_of) (node_tns kind_of inv str handler pi_of' seq_sched)
+              rd rd_nonempty modifier visible exact_checker Stream max_steps script input
+    = agent_run (node_tn kind_of inv str handler pi_of) (node_tns kind_of inv str handler pi_of' seq_sched)
+                rd rd_nonempty modifier visible exact_checker Generate max_steps script input.
+Proof. exact generate_stream_agree_alike. Qed.
+Print Assumptions generate_stream_agree_for_tools_behaving_alike.
+
+(* ... and with the DEFAULT first-chunk checker for every script outside the known finding F-C18 *)
+Theorem generate_stream_agree_with_default_checker_for_tools_behaving_alike :
+  forall kind_of inv str handler pi_of pi_of' rd rd_nonempty modifier visible script max_steps input,
+    (forall calls, Permutation (pi_of calls) (seq 0 (List.length calls))) ->
+    (forall calls, Permutation (pi_of' calls) (seq 0 (List.length calls))) ->
+    tools_alike inv str ->
+    Forall chunking_valid script ->
+    Forall tool_calls_first script ->
+    agent_run (node_tn kind_of inv str handler pi_of) (node_tns kind_of inv str handler pi_of' seq_sched)
+              rd rd_nonempty modifier visible default_checker Stream max_steps script input
+    = agent_run (node_tn kind_of inv str handler pi_of) (node_tns kind_of inv str handler pi_of' seq_sched)
+                rd rd_nonempty modifier visible default_checker Generate max_steps script input.
+Proof. exact generate_stream_agree_default_alike. Qed.
+Print Assumptions generate_stream_agree_with_default_checker_for_tools_behaving_alike.
+
 (* the interleaving the correspondence check uses is complete *)
 Theorem canonical_interleaving_is_complete :
   forall srcs, tails_none srcs -> drained (merge_rest (seq_sched srcs) srcs) = true.
@@ -540,6 +591,12 @@ Example heap_nonvacuous :
   /\ nth 0 (h_heap st) [] = [1; 2; 3; 4; 5; 0]%N
   /\ handed_intact st = true.
 Proof. vm_compute. repeat split; reflexivity. Qed.
+(* tools behaving alike exist: a tool streaming its name, an empty chunk and its arguments (returning
+   their concatenation when invoked), failing in both forms on the argument string "fail" *)
+Example tools_alike_nonvacuous :
+  tools_alike (fun name args => if String.eqb args "fail" then Tools.TErr 7 else Tools.TOk (concat_strings [name; ""; args]))
+              (fun name args => if String.eqb args "fail" then SErr 7 else SOk [name; ""; args] None).
+Proof. intros name args. destruct (String.eqb args "fail"); simpl; auto. split; [discriminate|reflexivity]. Qed.
 (* the tools node of the examples answers in call order; the future's messages of the example run *)
 Example tn_in_order_nonvacuous : tn_in_order ex_tn.
 Proof. intros calls results H. inversion H. rewrite map_map. reflexivity. Qed.
